@@ -49,10 +49,15 @@ type HookFn = extern "C" fn(c_int, *const c_char, *const c_char, c_long, c_long)
 extern "C" fn hook(kind: c_int, p1: *const c_char, p2: *const c_char, a: c_long, b: c_long) -> c_int {
     // only the thread that installed the handler produces boundaries (the Async-mode background
     // sync thread must not: its timing relative to the main thread is not deterministic)
+    let s1 = if p1.is_null() { String::new() } else { unsafe { CStr::from_ptr(p1) }.to_string_lossy().to_string() };
+    // C06 monitor (any thread): a file under cas/ is only ever created by rename and removed by unlink; an open that
+    // creates/truncates, a write or a truncate on such a path is an in-place modification
+    if (kind == K_OPEN || kind == K_WRITE || kind == K_FTRUNCATE) && s1.contains("/cas/") {
+        CAS_WRITES.fetch_add(1, std::sync::atomic::Ordering::Relaxed);
+    }
     if *OWNER.lock().unwrap() != Some(std::thread::current().id()) {
         return 0;
     }
-    let s1 = if p1.is_null() { String::new() } else { unsafe { CStr::from_ptr(p1) }.to_string_lossy().to_string() };
     let s2 = if p2.is_null() { None } else { Some(unsafe { CStr::from_ptr(p2) }.to_string_lossy().to_string()) };
     let call = Call { kind, p1: s1, p2: s2, a: a as i64, b: b as i64 };
     let mut g = HANDLER.lock().unwrap();
@@ -100,4 +105,23 @@ pub fn install(root: &Path, h: Handler) {
 pub fn uninstall() {
     set_root(None);
     *HANDLER.lock().unwrap() = None;
+}
+
+/// number of in-place modifications of files under cas/ seen so far (see `hook`)
+pub static CAS_WRITES: std::sync::atomic::AtomicUsize = std::sync::atomic::AtomicUsize::new(0);
+pub fn cas_writes() -> usize {
+    CAS_WRITES.load(std::sync::atomic::Ordering::Relaxed)
+}
+
+/// Monitor only (no boundaries): every thread's calls under `root` are watched for in-place writes under cas/.
+pub fn install_monitor(root: &Path) {
+    let p = sym("fsshim_set_hook");
+    if p.is_null() {
+        return;
+    }
+    *OWNER.lock().unwrap() = None;
+    *HANDLER.lock().unwrap() = None;
+    let f: extern "C" fn(HookFn) = unsafe { std::mem::transmute(p) };
+    f(hook);
+    set_root(Some(root));
 }
